@@ -50,6 +50,42 @@ CLAIMED = {
   text="Bounded model checking over request histories: every sequence of 2 (thorough: 2 on a 10-request menu and 3 on one location) get_scores requests mixing single/multiple fields, axes All/No/Time/Location/Leadtime and both inputs, with and without -obsrange, on 2 inputs with symbolic real-or-NaN cells; z3 proves on every path that the last result equals a freshly built dataset's, earlier returned arrays are unaltered (real NumPy aliasing is executed, not modelled), inputs are unmodified and a repeated request repeats its answer.",
   note="Trusted: symx array model (views/aliasing are NumPy's own). Outside: longer histories, more cells.",
   ref="3 C18"),
+ "C08": dict(
+  text="Bounded model checking: metric.get_p through Data (event probability = P(upper)-P(lower) from the stored CDF, or the fraction of present ensemble members when the threshold is not stored) for 8 bin types; the 7 Brier classes on 2-3 (probability, outcome) pairs with probabilities anywhere in [0,1] incl. bin edges (definitions, BS = REL-RES+UNC when one value per bin, BS(event) = BS(complement)); stored vs ensemble quantiles, pinball loss, coverage, spread, spread-skill ratio; bs/ign0/spherical/marginal ratio/threshold mean through Data; PIT mean, deviation, slope, shape.",
+  note="Trusted: symx models (quantile normal_unbiased, fork-based histogram), log2 uninterpreted, norm.ppf evaluated by SciPy on concrete levels; the 10 bin edges are the doubles np.linspace produces. Outside: PIT randomisation (np.random), more cases than the bound.",
+  ref="3 C08"),
+ "C09": dict(
+  text="Bounded model checking of verif.input.Text.__init__ on files of 2 (thorough 3) data rows x 7 header layouts (any column order, date+hour / unixtime, leadtime/offset, location/id, altitude/elev, p/q/e/pit/other columns, comment and metadata lines) whose every numeric cell is a symbolic token (obs cells also non-numeric / NaN / -999): z3 proves times/leadtimes = sorted distinct coordinates, one location per id with the first row's metadata, every field cell = the last row with those coordinates else missing, thresholds/quantiles/members from the headers, variable metadata.",
+  note="Trusted: builtin open() shadowed by an in-memory token file (the replay writes a real file and runs the real reader); calendar model for date columns. Outside: separators other than blanks, more rows than the bound.",
+  ref="3 C09"),
+ "C10": dict(
+  text="Partial. Bounded model checking of verif.input.Netcdf (every property getter, locations, variable metadata) over every subset of the 8 optional variable groups of a *stub* dataset with symbolic masked content: each attribute == clean(documented variable); get_input dispatch over all validity combinations; scripts/text2nc.main writes every array of the text input (symbolic) to the stub. With C09 this pins both readers to the same numbers.",
+  note="NOT decided: anything the NetCDF/HDF5 C library does (fill values on disk, float32 storage: 'exactly for float32-representable data'), 'detected from content' (is_valid_nc only tries to open the file), Comps files. netCDF4.Dataset is an in-memory stub in both the symbolic run and the replay.",
+  ref="3 C10"),
+ "C12": dict(
+  text="Partial. Bounded model checking of Standard._get_x_y, Output.text/csv and get_axis_descriptions on a real Data object with symbolic cells: placement (score of input f on slice i lands in row i, column f; threshold rows in the given order; mean over thresholds otherwise; -acc running sums; -leg labels; -f file instead of screen) is proven for every path; the printed characters are checked on one solver-chosen representative per path (the %g conversion needs a concrete number) to 6 / 4 significant digits, with the row descriptors.",
+  note="Trusted: symx models; print/open recorders. Formatting is decided for one representative model per path (realisation), said so in the evidence. Outside: terminal width, strftime of time labels beyond the real matplotlib on concrete times.",
+  ref="3 C12"),
+ "C13": dict(
+  text="Partial. Bounded model checking of the verif.driver.run argument loop with recorders at its boundary: 31 options x 3 positions each change exactly their documented slot (Data keyword / output attribute) with symbolic numeric values flowing through util.parse_numbers; --config == inline; util.parse_numbers/parse_dates on 6 vector shapes of symbolic decimal tokens against the comma/colon semantics (end point included, calendar-day stepping across month/year/leap boundaries); 21 malformed or out-of-range command lines are rejected with non-zero status.",
+  note="Trusted: get_input/Data/output actions are recording stubs here (their behaviour: C01-C12); arange/round models (validated). Outside: IEEE rounding of decimal grids, arbitrary-character argument strings (malformed syntax is decided on a fixed list of shapes), the effect of options on rendered plots (C17).",
+  ref="3 C13"),
+ "C16": dict(
+  text="Partial. Bounded model checking of Output.plot/_plot_core for the standard line plot (location/time/no), obsfcst, qq, sort, hist and freq on a real Data object with symbolic cells, observed at the matplotlib.pyplot boundary: one series per input in command-line order, each point = the defining statistic of its slice over the common valid cases, sorted values / percentiles, bin heights, every value in exactly one bin.",
+  note="NOT decided: the other 22 diagrams, maps, rank and impact views, and whether matplotlib draws what it is given. pyplot is a recording stub in both the symbolic run and the replay.",
+  ref="3 C16"),
+ "C17": dict(
+  text="Partial. Bounded model checking of the dataflow of 45 appearance options from argv through verif.driver.run, the output object's attributes and Output.plot/_adjust_axis/_legend/_save_plot/_get_plot_options/_add_annotation to the documented matplotlib call: the option's symbolic value arrives as the documented argument (set_rotation, grid(lw=), set_title(fontsize=), savefig(dpi=), set_size_inches, subplots_adjust, plot(color/ls/lw/marker/ms), legend(loc/prop), text(fontsize) ...); thorough: all ordered pairs of 9 options keep both effects.",
+  note="NOT decided: what matplotlib does with the call, the image format and pixel size. pyplot/Axes/Figure are recording stubs in both the symbolic run and the replay.",
+  ref="3 C17"),
+ "C19": dict(
+  text="Partial. Exploration through the engine of verif.driver.run -> real Data -> real metric -> Standard._get_x_y -> csv for every valid metric class (70) + 6 diagrams x 4 (thorough: all 19) -x dimensions x 3-6 bin-type/aggregator variants x dataset classes chosen by symbolic flags (a location and/or a time entirely missing, constant forecasts, zero observations, perfect forecast): every run returns or exits through verif.util.error with non-zero status; any other exception is replayed on the unmodified code and reported.",
+  note="This is the weakest claim: after the flags are decided the cells are concrete, so the solver only enumerates the feasible flag/option combinations (bounded configuration exploration, not value-level reasoning). NOT decided: output types that render (plot, map, rank, maprank, impact, mapimpact) and the diagrams' drawing code.",
+  ref="3 C19"),
+ "C20": dict(
+  text="Partial. Bounded model checking of scripts/accumulate.py (trailing sums for windows none/1..4 along lead time or time, incomplete windows missing, -i), scripts/ens2prob.py (cdf in [0,1] and non-decreasing in the threshold, quantiles non-decreasing in the level and within the ensemble range, PIT = fraction of members below the obs, missing where the obs is missing) and scripts/expandverif.py (each observation placed exactly where the valid time matches, symbolic init and lead times) run with the real argparse; times, lead times, location metadata and untouched fields are written unchanged.",
+  note="Trusted: get_input -> in-memory input, netCDF4 -> write recorder; scipy.signal.convolve(ones,'valid') and interp1d(kind='zero') are models under the engine (the replay uses SciPy). NOT decided: scripts/window.py, on-disk encoding.",
+  ref="3 C20"),
 }
 
 PENDING = {}
